@@ -563,6 +563,92 @@ fn check_headerless(c: &HeaderlessCase) -> Verdict {
     fails.finish(Pass::new(true, key_of(c)).evals(evals).label_if(magic_like, "first-name-starts-like-a-magic-number").label_if(c.names.len() >= 2, "records>=2"))
 }
 
+// ---------------------------------------------------------------------------------------------
+// records larger than a BGZF block (ultra-long reads): the readers then ask the block layer for
+// more than one block at a time
+
+#[derive(Clone, Debug, Serialize, Deserialize)]
+pub struct LongReadCase {
+    /// bases of the long read
+    pub len: u32,
+    pub seed: u32,
+    /// number of short reads in front of and behind it
+    pub before: u8,
+    pub after: u8,
+}
+
+fn long_read_strategy(_tier: Tier) -> BoxedStrategy<LongReadCase> {
+    let len = prop_oneof![2 => 60_000u32..70_000, 3 => 70_000u32..140_000, 2 => 140_000u32..300_000, 1 => proptest::sample::select(vec![65_280u32, 65_495, 65_536, 131_072, 196_608])];
+    (len, any::<u32>(), 0u8..4, 0u8..4).prop_map(|(len, seed, before, after)| LongReadCase { len, seed, before, after }).boxed()
+}
+
+fn check_long_read(c: &LongReadCase) -> Verdict {
+    let header = sam::Header::default();
+    let repo = noodles_fasta::Repository::default();
+    let mut rng = crate::r#gen::payload::XorShift::new(c.seed as u64 + 99);
+    let mut mk = |name: String, n: usize| {
+        let seq: Vec<u8> = (0..n).map(|_| b"ACGTN"[(rng.next() % 5) as usize]).collect();
+        let qual: Vec<u8> = (0..n).map(|_| (rng.next() % 60) as u8 + 1).collect();
+        sam::alignment::RecordBuf::builder().set_name(name.into_bytes()).set_flags(sam::alignment::record::Flags::UNMAPPED).set_sequence(seq.into()).set_quality_scores(qual.into()).build()
+    };
+    let mut input = Vec::new();
+    for i in 0..c.before {
+        input.push(mk(format!("s{i}"), 20 + i as usize * 7));
+    }
+    input.push(mk("long".to_string(), c.len as usize));
+    for i in 0..c.after {
+        input.push(mk(format!("t{i}"), 30 + i as usize * 5));
+    }
+    let want: Vec<gcram::Canon> = input.iter().map(gcram::canon_of_record).collect();
+    let boxed = |v: &[sam::alignment::RecordBuf]| -> Vec<Box<dyn sam::alignment::Record>> { v.iter().map(|r| Box::new(r.clone()) as Box<dyn sam::alignment::Record>).collect() };
+    let mut fails = Fails::new();
+    let mut evals = 0u64;
+    let mut files = Vec::new();
+    for fmt in AFMTS {
+        evals += 1;
+        match write_aln(fmt, &header, &boxed(&input), &repo) {
+            Err(e) => fails.push(format!("c20.long-read.write-error:{}", fmt.name()), format!("{e}")),
+            Ok(bytes) => match read_aln(&bytes, &repo) {
+                Err(e) => fails.push(format!("c20.long-read.detect-or-read-error:{}", fmt.name()), format!("a {} stream with a {}-base read ({} bytes) is not read back: {e}", fmt.name(), c.len, bytes.len())),
+                Ok((_, recs)) => {
+                    let got: Vec<gcram::Canon> = recs.iter().map(gcram::canon_of_record).collect();
+                    if got != want {
+                        let i = got.iter().zip(want.iter()).position(|(a, b)| a != b).unwrap_or(got.len().min(want.len()));
+                        fails.push(format!("c20.long-read.differs:{}", fmt.name()), format!("{} records read back, {} written; first difference at record {i} (the long read is record {})", got.len(), want.len(), c.before));
+                    }
+                    files.push((fmt, bytes));
+                }
+            },
+        }
+    }
+    // conversions out of the BGZF formats (where the record spans blocks)
+    for (a, bytes) in &files {
+        for b in AFMTS {
+            if *a == b || !matches!(a, AFmt::Bam | AFmt::SamGz) {
+                continue;
+            }
+            evals += 1;
+            let piped = (|| -> io::Result<Vec<u8>> {
+                let mut r = alignment::io::reader::Builder::default().set_reference_sequence_repository(repo.clone()).build_from_reader(&bytes[..])?;
+                let h = r.read_header()?;
+                let recs: Vec<Box<dyn sam::alignment::Record>> = r.records(&h).collect::<io::Result<_>>()?;
+                write_aln(b, &h, &recs, &repo)
+            })();
+            let what = format!("{}->{}", a.name(), b.name());
+            match piped.and_then(|out| read_aln(&out, &repo)) {
+                Err(e) => fails.push(format!("c20.long-read.convert-error:{what}"), format!("{e}")),
+                Ok((_, recs)) => {
+                    let got: Vec<gcram::Canon> = recs.iter().map(gcram::canon_of_record).collect();
+                    if got != want {
+                        fails.push(format!("c20.long-read.convert-differs:{what}"), format!("{} records after the conversion, {} written (or their contents differ)", got.len(), want.len()));
+                    }
+                }
+            }
+        }
+    }
+    fails.finish(Pass::new(true, key_of(c)).evals(evals).label_if(c.len >= 131_072, "read>=128KiB").label_if(c.len >= 65_536, "read>=64KiB"))
+}
+
 pub fn property() -> Property {
     Property {
         id: "C20",
@@ -585,6 +671,7 @@ pub fn property() -> Property {
             )
             .boxed(),
             sub("alignment_headerless", "SAM/SAM.gz/BAM/CRAM streams with an empty header and unmapped reads whose first name begins like a magic number (BAM, CRAM, BCF, …) or not; every case is non-trivial; distinct by hash", |_tier| headerless_strategy(), check_headerless, 10_000, 100_000).boxed(),
+            sub("alignment_long_read", "0–3 short reads, one read of 60 000–300 000 bases, 0–3 short reads, through SAM/SAM.gz/BAM/CRAM and the conversions out of the BGZF formats; every case is non-trivial; distinct by hash", long_read_strategy, check_long_read, 600, 8_000).boxed(),
             sub(
                 "variant",
                 "non-trivial = document with ≥1 record; distinct by hash of the document",
